@@ -39,6 +39,35 @@ def like_scen(pat, texts, carrier, mode, neg=False):
     return sc
 
 
+def aggcase_scen(rng, pats, texts):
+    """CASE conditions INSIDE aggregate arguments: sum(CASE WHEN s LIKE p THEN 1 ELSE 0 END) counts the rows that match, several such
+    aggregates in one statement (patterns that differ in letter case only are different patterns), IS [NOT] NULL over a column the row
+    may lack altogether"""
+    n = rng.choice([4, 6, 8])
+    rows = []
+    for i in range(n):
+        r = {"id": i + 1}
+        x = rng.choice(texts + [None, "__missing__", "__missing__"])
+        if x != "__missing__": r["s"] = x
+        if rng.random() < 0.6: r["v"] = rng.choice([1, 2, 3])       # (some rows hold nothing but their id)
+        rows.append(r)
+    conds = []
+    p1 = rng.choice(pats)
+    conds.append({"t": "like", "a": col("s"), "pat": list(p1), "neg": False})
+    p2 = p1.swapcase() if p1.swapcase() != p1 and rng.random() < 0.6 else rng.choice(pats)
+    if p2 != p1:
+        conds.append({"t": "like", "a": col("s"), "pat": list(p2), "neg": False})
+    conds.append({"t": "isnull", "a": col("s"), "neg": rng.random() < 0.4})
+    rng.shuffle(conds)
+    items, aggs = [], []
+    for k, c in enumerate(conds):
+        items.append("sum(CASE WHEN %s THEN 1 ELSE 0 END) AS a%d" % (sql(c), k))
+        aggs.append({"al": "a%d" % k, "fn": "sum", "arg": {"k": "cond", "e": c}, "p": 0})
+    items.append("count(*) AS cn"); aggs.append({"al": "cn", "fn": "count_star", "arg": {"k": "star"}, "p": 0})
+    meta = {"fam": "batch", "carrier": "counting", "n": n, "gcols": [], "gout": [], "aggs": aggs}
+    return {"meta": meta, "sql": "SELECT %s FROM stream GROUP BY CountingWindow(%d)" % (", ".join(items), n), "rows": rows, "norename": True}
+
+
 def having_scen(rng, preds, pats, texts=None):
     """HAVING carrier: predicates over the alias of last_value(s) in a tumbling batch of 4 groups"""
     groups = ["a", "b", "c", "d"]
@@ -161,6 +190,9 @@ def run(tier):
                         texts=["a max(x) b", "max(s)", "count(*)", "x avg(v)", "ab", "sum(v)", "max(x)"]) for _ in range(40 if quick else 1000)]
     seqfam.run_scenarios(res, hav, "TracePostAgg", tag="having")
     scen += hav
+    agc = [aggcase_scen(rng, ["a%", "A%", "%b", "%B", "a_", "ab", "Ab", "%a%", "%"], ["ab", "Ab", "AB", "b", "aB", "xb", "", "a"]) for _ in range(120 if quick else 4000)]
+    seqfam.run_scenarios(res, agc, "TraceBatch", tag="aggcase", relayout_p=0.3)
+    scen += agc
     seqfam.run_pinned(res, "TraceDirect")
     res.cov["exhaustive"] = True
     npairs = sum(len(s["rows"]) for s in scen)
